@@ -125,6 +125,48 @@ let sc_batch (alpha : z list) (prefix : z list) (k : int) : int * int =
   pre scan_init "" prefix;
   (!n, !h)
 
+(* ---------------------------------------------------------------- the TRANSLATED literal classifier (Gen/Literal.v)
+     L <hextoken>   -> L <tag> <conv> <cast> <value | err | ->    conv 0 the token itself, 1 ParseInt, 2 ParseFloat, 3 panic
+                       (printed 0 3 0 -); for conv = 1 the driver evaluates strconv.ParseInt(token[:strlen], 10, bits) with
+                       the model's strlen and bits: optional sign, decimal digits only, range of a signed `bits`-bit integer
+     Y <hexalphabet> <hexprefix> <k>  -> Y <count> <fnv32 of the result lines>   (as X above) *)
+let parse_int (s : string) (bits : int) : string =
+  let n = String.length s in
+  if n = 0 then "err" else
+  let neg = s.[0] = '-' in
+  let start = if s.[0] = '-' || s.[0] = '+' then 1 else 0 in
+  if start >= n then "err" else begin
+    let ok = ref true in
+    for i = start to n - 1 do if s.[i] < '0' || s.[i] > '9' then ok := false done;
+    if not !ok then "err" else begin
+      let k = ref start in
+      while !k < n - 1 && s.[!k] = '0' do incr k done;
+      let d = String.sub s !k (n - !k) in
+      let lim = match bits with 8 -> "128" | 16 -> "32768" | 32 -> "2147483648" | _ -> "9223372036854775808" in
+      let le a b = String.length a < String.length b || (String.length a = String.length b && a <= b) in
+      let fits = if neg then le d lim else (le d lim && d <> lim) in
+      if not fits then "err" else if neg && d <> "0" then "-" ^ d else d
+    end
+  end
+let lit_line (tok : z list) : string =
+  let ((((tag, conv), bits), cast), strlen) = nbt_parseLiteral_unquoted tok in
+  let conv = int_of_z conv in
+  if conv = 3 then "0 3 0 -" else
+  let rest =
+    if conv = 1 then begin
+      let n = int_of_z strlen in
+      let b = Buffer.create 16 in
+      List.iteri (fun i c -> if i < n then Buffer.add_char b (Char.chr (int_of_z c land 255))) tok;
+      parse_int (Buffer.contents b) (int_of_z bits)
+    end else "-" in
+  Printf.sprintf "%d %d %d %s" (int_of_z tag) conv (int_of_z cast) rest
+let lit_batch (alpha : z list) (prefix : z list) (k : int) : int * int =
+  let h = ref 2166136261 and n = ref 0 in
+  let rec walk (t : z list) (k : int) =
+    h := fnv !h (lit_line t); incr n;
+    if k > 0 then List.iter (fun c -> walk (t @ [c]) (k - 1)) alpha in
+  walk prefix k; (!n, !h)
+
 let () = iter_lines (fun line ->
   Hashtbl.reset fm32_tbl; Hashtbl.reset fm64_tbl; Hashtbl.reset pf32_tbl; Hashtbl.reset pf64_tbl;
   match split_ws line with
@@ -145,4 +187,8 @@ let () = iter_lines (fun line ->
   | ["X"; a; p; k] ->
       let (n, h) = sc_batch (zbytes_of_hex a) (zbytes_of_hex p) (int_of_string k) in
       Printf.printf "X %d %08x\n" n h
+  | ["L"; h] -> Printf.printf "L %s\n" (lit_line (zbytes_of_hex h))
+  | ["Y"; a; p; k] ->
+      let (n, h) = lit_batch (zbytes_of_hex a) (zbytes_of_hex p) (int_of_string k) in
+      Printf.printf "Y %d %08x\n" n h
   | _ -> Printf.printf "?? %s\n" line)
